@@ -292,3 +292,7 @@ func specHeaderV4(op int, htype int, hlen int, hops int, xid string, secs int, f
 
 //@ contract parserFor$1
 //@   modifies vendorParser
+
+//@ contract net.CIDRMask
+//@   trusted
+//@   ensures fresh(result)
